@@ -85,6 +85,14 @@ Verdict(ev) ==
                  \/ ev.found[i].s < 0 \/ ev.found[i].e < ev.found[i].s \/ ev.found[i].e > Len(ev.own)      \* a position outside the text
                  \/ ev.found[i].text # SubSeq(ev.own, ev.found[i].s + 1, ev.found[i].e)
          THEN {"search-position"} ELSE {})
+   \* text_at(start[, end]) for any integers: a negative start counts as 0, an end before the start as the start, no end
+   \* (recorded as -1) as the end of the text, an end beyond the text as the end of the text
+   \cup (IF o.op = "search" /\ Has(ev, "slices") /\ \E i \in 1..Len(ev.slices) :
+                LET sl == ev.slices[i]
+                    a == IF sl.s < 0 THEN 0 ELSE sl.s
+                    b == IF sl.e = -1 THEN Len(ev.own) ELSE IF sl.e < a THEN a ELSE IF sl.e > Len(ev.own) THEN Len(ev.own) ELSE sl.e
+                IN sl.text # (IF a >= Len(ev.own) THEN <<>> ELSE SubSeq(ev.own, a + 1, b))
+         THEN {"text-at-slice"} ELSE {})
    \cup (IF o.op = "search" /\ ev.linkfree /\ ev.own # Decode(ev.pre) THEN {"own-text"} ELSE {})
    \cup (IF o.op = "search" /\ Has(o, "p") /\ ev.linkfree /\
             [i \in 1..Len(ev.found) |-> ev.found[i].s + 1] # Occ(Decode(ev.pre), o.p, 1) THEN {"search-all"} ELSE {})
